@@ -152,6 +152,20 @@ func init() {
 		x.manualClock = x.ts.Bin(OpAdd, x.manualClock, args[0].(*Term))
 		return nil
 	})
+	// VerifClockSteps(ms...): from now on every time.Now() first moves the manual clock forward by one
+	// of the given amounts (one path per choice): a small-scope clock that can stand still, creep or
+	// jump between any two reads, with concrete instants (no symbolic calendar arithmetic).
+	reg(libPkg+"VerifClockSteps", func(fr *frame, args []Value) Value {
+		x := fr.x
+		if x.manualClock == nil {
+			x.manualClock = x.ts.BV(1_700_000_000_000, 64)
+		}
+		x.clockSteps = nil
+		for _, v := range args[0].(Slice).S {
+			x.clockSteps = append(x.clockSteps, x.concreteInt(v.(*Term), "VerifClockSteps"))
+		}
+		return nil
+	})
 	reg("(time.Time).UnixMilli", func(fr *frame, args []Value) Value {
 		t := args[0].(Struct)
 		if w, ok := t[0].(*Term); ok {
@@ -174,6 +188,15 @@ func init() {
 	})
 	reg("net.JoinHostPort", func(fr *frame, args []Value) Value {
 		return fr.x.mkStr(concStr(fr.x, args[0]) + ":" + concStr(fr.x, args[1]))
+	})
+	reg(libPkg+"VerifTimersArmed", func(fr *frame, args []Value) Value {
+		n := 0
+		for _, t := range fr.x.timers {
+			if t.active {
+				n++
+			}
+		}
+		return fr.x.ts.BV(uint64(n), 64)
 	})
 	reg(libPkg+"VerifFireTimers", func(fr *frame, args []Value) Value {
 		n := 0
@@ -469,6 +492,11 @@ func init() {
 
 	// ---- time ----------------------------------------------------------------------------
 	reg("time.Now", func(fr *frame, args []Value) Value { return fr.x.nowValue() })
+	// time.now (runtime-provided wall clock) is used by LoadLocationFromTZData only to prime the
+	// location's lookup cache: a fixed instant (the epoch) keeps that cache out of the way
+	reg("time.now", func(fr *frame, args []Value) Value {
+		return Tuple{fr.x.ts.BV(0, 64), fr.x.ts.BV(0, 32), fr.x.ts.BV(0, 64)}
+	})
 	reg("time.Since", func(fr *frame, args []Value) Value { return fr.x.Fresh("since", 64) })
 	reg("time.Sleep", func(fr *frame, args []Value) Value { return nil })
 	reg("time.AfterFunc", func(fr *frame, args []Value) Value {
@@ -605,6 +633,34 @@ func init() {
 	reg("math.Float64frombits", id)
 	reg("math.Float32bits", id)
 	reg("math.Float32frombits", id)
+
+	reg("internal/bytealg.IndexByte", func(fr *frame, args []Value) Value {
+		x := fr.x
+		sl := args[0].(Slice)
+		c, ok := args[1].(*Term)
+		if !ok || !c.IsConst() {
+			x.unsupported("bytealg.IndexByte with a symbolic byte")
+		}
+		for i, v := range sl.S {
+			t, ok := v.(*Term)
+			if !ok || !t.IsConst() {
+				x.unsupported("bytealg.IndexByte over symbolic bytes")
+			}
+			if t.C == c.C {
+				return x.ts.BV(uint64(i), 64)
+			}
+		}
+		return x.ts.BV(^uint64(0), 64)
+	})
+	reg("internal/bytealg.IndexByteString", func(fr *frame, args []Value) Value {
+		x := fr.x
+		st := args[0].(Str)
+		c, ok := args[1].(*Term)
+		if !ok || !c.IsConst() || !st.Conc {
+			x.unsupported("bytealg.IndexByteString on symbolic data")
+		}
+		return x.ts.BV(uint64(int64(strings.IndexByte(st.C, byte(c.C)))), 64)
+	})
 
 	// ---- strings / strconv fast paths on concrete arguments ---------------------------------
 	reg("strconv.Itoa", func(fr *frame, args []Value) Value {
@@ -910,6 +966,12 @@ func (x *Exec) nowValue() Value {
 	var total *Term // unix milliseconds
 	var sec, ms *Term
 	if x.manualClock != nil {
+		if len(x.clockSteps) > 0 {
+			t := x.Fresh("clockstep", 64)
+			x.Assume(ts.Cmp(OpULt, t, ts.BV(uint64(len(x.clockSteps)), 64)), "clock step in range")
+			k := x.Concretize(t, "clock step")
+			x.manualClock = ts.Bin(OpAdd, x.manualClock, ts.BV(uint64(x.clockSteps[k]), 64))
+		}
 		total = x.manualClock
 		sec = ts.Bin(OpUDiv, total, ts.BV(1000, 64))
 		ms = ts.Bin(OpURem, total, ts.BV(1000, 64))
